@@ -291,3 +291,9 @@ Theorem C11_export_total : forall fresh user data dom today,
               export_docs fresh user data dom today = OOk (AOk (svg_doc_of s, tikz_doc_of s)).
 Proof. exact export_total. Qed.
 Print Assumptions C11_export_total.
+
+(* the direction written into the copy of the engine-option dict does not reach the engine *)
+Theorem C11_options_engine_ignores_direction : forall l dir,
+  engine_update (dset l E_direction dir) = engine_update l.
+Proof. exact engine_update_ignores_direction. Qed.
+Print Assumptions C11_options_engine_ignores_direction.
